@@ -613,7 +613,15 @@ class Machine:
             if isinstance(a[0], (list, str)):
                 return [self.fn(a[1], x) for x in a[0]]
             if isinstance(a[0], dict):
-                return [self.fn(a[1], k, v) for k, v in list(a[0].items())]
+                # the entries are visited through the live mapping: a callback that adds or removes entries of the same dict ends
+                # the walk with an error at the next step, one that replaces a later value is handed the new value
+                out = []
+                try:
+                    for k, v in a[0].items():
+                        out.append(self.fn(a[1], k, v))
+                except RuntimeError:
+                    raise OtherErr('dictionary changed size during iteration')
+                return out
             raise PErr('map of a scalar')
         if name == 'filter' and n == 2:
             if isinstance(a[0], list):
